@@ -35,9 +35,24 @@ def read(source, format=None):
     if format:
         return ProvDocument.deserialize(source=source, format=format.lower())
 
+    if hasattr(source, "read"):
+        # a stream can only be consumed once: keep its content so that every
+        # format is tried on all of it
+        import io
+
+        data = source.read()
+
+        def fresh_source():
+            return io.StringIO(data) if isinstance(data, str) else io.BytesIO(data)
+
+    else:
+
+        def fresh_source():
+            return source
+
     for format in serializers:
         try:
-            return ProvDocument.deserialize(source=source, format=format)
+            return ProvDocument.deserialize(source=fresh_source(), format=format)
         except:
             pass
     else:
